@@ -194,6 +194,25 @@ auto uninitialized_copy(boost::gil::bit_aligned_pixel_iterator<NonAlignedPixelRe
     return std::copy(first,last,dst);
 }
 
+// The same holds when the source is any other iterator (the x-iterator of a flipped, subsampled or transposed view,
+// a const iterator) and for uninitialized_fill: placement new at addressof(*dst) builds a copy of the proxy reference
+// on top of a temporary and stores nothing -- bit-aligned image(w, h, fill) and image(flipped_view) stayed unwritten.
+template <typename InputIterator, typename NonAlignedPixelReference>
+auto uninitialized_copy(InputIterator first, InputIterator last,
+    boost::gil::bit_aligned_pixel_iterator<NonAlignedPixelReference> dst)
+    -> boost::gil::bit_aligned_pixel_iterator<NonAlignedPixelReference>
+{
+    return std::copy(first,last,dst);
+}
+
+template <typename NonAlignedPixelReference, typename T>
+void uninitialized_fill(boost::gil::bit_aligned_pixel_iterator<NonAlignedPixelReference> first,
+    boost::gil::bit_aligned_pixel_iterator<NonAlignedPixelReference> last,
+    T const& value)
+{
+    std::fill(first,last,value);
+}
+
 } // namespace std
 
 #endif
